@@ -891,3 +891,115 @@ class XmlMethodSuite(MethodRowsSuite):
         spec = {"kind": "xml", "stage": stage, "method": method, "xml": xml, "bob": None, "single": None,
                 "start_index": start_index, "custom": random_custom_row(rng, stage)}
         return spec, {"expanded": expanded, "bobs": {}, "singles": {}}, L
+
+
+class CreateRowGenSuite(GenHistorySuite):
+    """The command line's own way to a row generator: wheatley.main.create_row_generator(argparse.Namespace) for
+    --place-notation (with --bob/--single/--start-index/--start-row), --method with the special titles
+    (Plain Hunt, Grandsire, Stedman, Dixon's Bob, by stage name or number) and --method through the CCCBR XML
+    answer (faked).  The generator it builds is run and compared with the model of the generator those
+    arguments describe, and (oracle) with that generator constructed directly."""
+    name = "create_row_generator"
+
+    CALLS = [("14", {0: "14"}), ("1234", {0: "1234"}), ("-1: 3", {-1: "3"}), ("0: 14 / -2: 16", {0: "14", -2: "16"}),
+             (" 3 : 1234.14", {3: "1234.14"}), ("x", {0: "x"})]
+    NAMES = {3: "singles", 4: "minimus", 5: "doubles", 6: "minor", 7: "triples", 8: "major", 9: "caters", 10: "royal",
+             11: "cinques", 12: "maximus", 13: "sextuples", 14: "fourteen", 15: "septuples", 16: "sixteen"}
+
+    def cases(self, rng, tier):
+        for _ in range(120 if tier == "quick" else 1200):
+            path = rng.choice(["pn", "pn", "special", "special", "xml"])
+            ops = random_ops(rng, rng.choice([10, 40, 90]))
+            if path == "pn":
+                stage = rng.randint(3, 16)
+                s, _ = random_notation(rng, stage, max_len=rng.choice([2, 6, 10]))
+                bob, single = rng.choice(self.CALLS), rng.choice(self.CALLS)
+                si = rng.choice([0, 0, 1, -1, 5, -7])
+                custom = random_custom_row(rng, stage)
+                args = {"place_notation": f"{stage}:{s}", "bob": bob[0], "single": single[0],
+                        "start_index": si, "start_row": custom}
+                spec = {"kind": "pn", "stage": stage, "method": s, "bob": {str(k): v for k, v in bob[1].items()},
+                        "single": {str(k): v for k, v in single[1].items()}, "start_index": si, "custom": custom}
+            elif path == "special":
+                kind = rng.choice(["plain_hunt", "grandsire", "stedman", "dixon"])
+                stage = {"plain_hunt": rng.randint(3, 16), "grandsire": rng.randint(5, 16),
+                         "stedman": rng.choice([5, 7, 9, 11, 13, 15]), "dixon": 6}[kind]
+                word = {"plain_hunt": rng.choice(["Plain Hunt", "plain hunt on", "PLAIN HUNT"]), "grandsire": "Grandsire",
+                        "stedman": rng.choice(["Stedman", " stedman"]), "dixon": "Dixon's Bob"}[kind]
+                st = rng.choice([self.NAMES[stage].capitalize(), self.NAMES[stage], str(stage)])
+                custom = random_custom_row(rng, stage)
+                args = {"method": f"{word} {st}", "bob": "14", "single": "1234", "start_index": rng.choice([0, 3]), "start_row": custom}
+                spec = {"kind": kind, "stage": stage, "custom": custom}
+                if kind == "dixon":
+                    spec.update({"plain": None, "bob": None, "single": None})
+            else:
+                stage = rng.randint(4, 12)
+                a = [random_change(rng, stage) for _ in range(rng.randint(1, 6))]
+                b = [random_change(rng, stage) for _ in range(1)]
+                sa, sb = render_block(rng, a), render_block(rng, b)
+                bob, single = rng.choice(self.CALLS), rng.choice(self.CALLS)
+                si = rng.choice([0, 2, -1, 7])
+                custom = random_custom_row(rng, stage)
+                args = {"method": "Some Title " + self.NAMES[stage].capitalize(), "bob": bob[0], "single": single[0],
+                        "start_index": si, "start_row": custom, "xml": method_xml("Some Title", stage, [sa, sb], True)}
+                spec = {"kind": "pn", "stage": stage, "method": f"&{sa},&{sb}", "bob": {str(k): v for k, v in bob[1].items()},
+                        "single": {str(k): v for k, v in single[1].items()}, "start_index": si, "custom": custom}
+            yield {"spec": spec, "ops": ops, "args": args}
+
+    def run_impl(self, case):
+        import argparse
+        import wheatley.main as M
+        from wheatley.row_generation import method_place_notation_generator as mpg
+        a = dict(case["args"])
+        xml = a.pop("xml", None)
+        ns = argparse.Namespace(comp=None, method=a.get("method"), place_notation=a.get("place_notation"), bob=a["bob"],
+                                single=a["single"], start_index=a["start_index"], start_row=a["start_row"])
+        old = mpg.requests.get
+        mpg.requests.get = fake_requests_get(xml if xml is not None else "<methods/>")
+        try:
+            try:
+                g = M.create_row_generator(ns)
+            except SystemExit as e:
+                return {"ctor_err": "EOwn", "msg": str(e.code)}
+            except Exception as e:  # pylint: disable=broad-except
+                return {"ctor_err": F.exn_kind(e), "msg": str(e)}
+        finally:
+            mpg.requests.get = old
+        rows, ex = run_ops(g, case["ops"])
+        out = {"rows": rows, "exn": ex, "start_row": bell_nums(g.start_row), "stage": g.stage, "cls": type(g).__name__}
+        try:
+            d = build_impl_generator(case["spec"])
+            out["direct"] = run_ops(d, case["ops"])[0]
+        except Exception as e:  # pylint: disable=broad-except
+            out["direct_err"] = F.exn_kind(e)
+        return out
+
+    def to_coq(self, case, out):
+        if "ctor_err" in out:
+            # sys.exit with the option's message / an exception of the constructor: the model's constructor must fail too
+            o = dict(out)
+            o["ctor_err"] = out["ctor_err"] if out["ctor_err"] != "EOwn" else "EValue"
+            return GenHistorySuite.to_coq(self, case, o)
+        return GenHistorySuite.to_coq(self, case, out)
+
+    def _same_as_direct(self, case, out):
+        if "rows" not in out:
+            if "direct" in out:
+                return f"create_row_generator({case['args']}) failed ({out.get('msg')}) although these arguments describe a generator"
+            return None
+        if "direct" in out and out["rows"] != out["direct"]:
+            i = next((j for j in range(min(len(out["rows"]), len(out["direct"]))) if out["rows"][j] != out["direct"][j]), None)
+            return (f"create_row_generator({ {k: v for k, v in case['args'].items() if k != 'xml'} }) rings row {i} = "
+                    f"{out['rows'][i][0] if i is not None else '?'}; the generator those arguments describe rings "
+                    f"{out['direct'][i][0] if i is not None else '?'}")
+        return None
+
+    oracle_C02 = _same_as_direct
+    oracle_C04 = _same_as_direct
+    oracle_C18 = _same_as_direct
+
+    def oracle_C01(self, case, out):
+        return None
+
+    def oracle_C03(self, case, out):
+        return None
